@@ -27,6 +27,8 @@ CHECKS = {
          "construction depth 1 full, depth 2 reduced, deeper by simulation"),
  "C06": ("exploration", "5", "Paths.tla: all pairs of access paths of length <= 2 (3 thorough) over 9 abstract item keys x 3 attribute names x 2 labels under 4 hostile key tables: == / != / hash / dict lookup follow path identity; dictionary behaviours keyed by freshly built refs; then identical / different expression structures (Expr.tla)",
          "collision behaviour of large families only as: n similar keys give n distinct retrievable entries (10^4 quick, 10^5 thorough per family)"),
+ "C14": ("model_checking", "6", "TableHeap.tla: heap of live tables under every derivation (rows / cols / cols[expr] / + / *k / concatenate / _copy / _t) and assignment; after every step ALL live tables are compared with the value-semantics specification (rectangular, column list, scalars, cells), so a derivation that damages its source is seen",
+         "roots of 0..3 rows, <= 3-5 live tables, depth 2-3 exhaustive + simulated depth 6-9; cells of columns that may share an in-place assigned array are Unknown; two dtype instantiations"),
  "C07": ("model_checking", "6", "TableIndex.tla (index column + lazily built cache) checked with TLC; every generated transition replayed on a real Table, lookups compared with the spec's Resolve",
          "3-name alphabet, 0..3 rows exhaustive (4 thorough), node identity includes last probed snapshot so lookup/update interleavings stay distinct"),
  "C08": ("model_checking", "6", "RowSel.tla: the selector semantics as pure TLA+ operators; TLC enumerates every (table, selector[, selector]) case with its expected rows and each case is executed on a real Table (rows / rows.rows / indices / mask) under several hash seeds",
